@@ -381,3 +381,16 @@ more("C17",
      text="The library route Builder(PyramidIO(scheme)) is run under both naming schemes with image sizes down to a single tile and a single pixel in every study route; the "
           "tile_fits history machine is explored to 4 calls over inputs that include a 10-level TOAST pyramid, so that directory states with two-digit level names are overridden "
           "and reused.")
+more("C02",
+     text="Lossy format (jpg, code -> spec): noisy RGB pyramids are written and cascaded by the real code; the children of every parent AS STORED (decoded from disk) are handed "
+          "to TLC (spec/MCLossy.tla over the variable-free spec/TileMerge.tla), which evaluates the display sentence and the reduce rule on them; the stored parent must equal, "
+          "sample for sample, the re-encoding (with the file's own quantisation tables) of that reduction under one of the uniform roundings, and serial and 2-process cascades of "
+          "the same stored leaves must agree exactly.",
+     note="jpg: quick sends the root completely and the other parents at 1500 sampled pixels through TLC (thorough: 24 parents completely); admitted roundings are down / up / "
+          "nearest (ties even or up) applied uniformly; libjpeg via the same PIL is trusted to be deterministic.")
+more("C07",
+     text="Filtered runs are compared with exhaustive ones through every public route (toast.sample_layer_filtered, Builder.toast_base with is_planet / coordsys, tile_fits / FitsTiler "
+          "in TOAST mode including the union-of-footprints filter of the downsampling stage for collections that list one file several times) in both coordinate systems; chunk "
+          "filters are probed along every chunk edge down to tiles much smaller than a map cell; pixel centres on chunk seams must be filled.",
+     note="UnionNoFalseNegative (BBoxFilter), SeamsCovered / SeamIsLocalTie (Chunks) checked by TLC. The chunk sampler left seam pixel centres unfilled (repaired, 8ef389e). "
+          "Fits-tiler route at start level 3, 2 images in quick.")
